@@ -18,16 +18,19 @@ ID = "C15"
 RULE = (
     "Hypothesis draws a 2-d or 3-d grid (Cartesian / tensor / structured triangles and tetrahedra / mixed "
     "triangle-quadrilateral polygons and their extrusion to prisms+hexahedra, no hanging nodes; perturbed up to "
-    "0.15 h, 3-d affine maps and rotations; gmsh simplices in the thorough tier; 2-d grids in the xy-plane), "
-    "Lame parameters, one or two coupling coefficients alpha in [0.2,1.5] given as float, int (1) or constant "
+    "0.15 h, 3-d affine maps and rotations; gmsh simplices in the thorough tier; 2-d grids in the xy-plane; one grid in four multiplied by a unit factor "
+    "1e-6..1e4, one tensor grid in two graded with spacings down to 1e-4 of their neighbours), Lame parameters "
+    "(one case in four times a modulus scale 1e-6..1e12), one or two coupling coefficients alpha in [0.2,1.5] "
+    "(one in four times 1e-6..1e12) given as float, int (1) or constant "
     "isotropic SecondOrderTensor under distinct keys, a linear displacement field u = c + G x (general, "
-    "symmetric, skew, volumetric, translation) and a constant pressure p0 in [-3,3]; mechanical boundary all "
+    "symmetric, skew, volumetric, translation) with u = d (L c + G x), L the unit factor of the grid and d = 1 or a data magnitude 1e-6..1e6, and a constant "
+    "pressure p0 in [-3,3] (one in three times 1e-6..1e9); mechanical boundary all "
     "Dirichlet with data u(x_f). In three quarters of the cases the matrices come from a RE-discretisation after "
     "in-place edits (boundary types of the same bc object from a Dirichlet/Neumann mix to all Dirichlet, Lame "
     "parameters of the same tensor, node coordinates + compute_geometry), directly or there-and-back, same or new "
     "Biot object, same or new data dictionary. Oracle (analytic), per coupling key k: displacement_divergence[k] u + "
     "boundary_displacement_divergence[k] bc = alpha_k tr(G) |cell| in every cell; scalar_gradient[k] p0 = "
-    "-alpha_k p0 n_f on every face and component; 1e-9 of the magnitude of the summed terms. Non-trivial = "
+    "-alpha_k p0 n_f on every face and component; 1e-9 of the magnitude of the summed terms, no absolute tolerance. Non-trivial = "
     ">= 2 cells, tr(G) != 0 and p0 != 0; distinct = hash of spec."
 )
 BUDGET = {"quick": {"cases": 400, "seconds": 40}, "thorough": {"cases": 5000, "seconds": 1000}}
@@ -38,7 +41,8 @@ LEVEL_TEXT = ("Exploration: hundreds (quick) to thousands (thorough) of generate
               "with closed-form values independent of the implementation.")
 LEVEL_NOTE = ("Grids have at most ~100 cells (a few hundred in the thorough tier), planar faces, no hanging nodes; "
               "isotropic constant coupling coefficients only; all-Dirichlet mechanics as the property states. "
-              "Tolerance 1e-9 relative to the summed terms. Finds violations, does not prove absence.")
+              "Tolerance 1e-9 purely relative to the summed terms (lengths 1e-6..1e4, moduli and coefficients "
+              "1e-6..1e12, data 1e-6..1e9 are covered). Finds violations, does not prove absence.")
 DESIGN_REF = "DESIGN.md section 4, C15"
 ASSUMPTIONS = [
     "2-d grids lie in the xy-plane (tacit assumption documented in biot.py)",
@@ -49,6 +53,8 @@ ASSUMPTIONS = [
 REQUIRED = {"dim2": 0.2, "dim3": 0.2, "alpha-float": 0.2, "alpha-tensor": 0.2, "two-keys": 0.15,
             "field-general": 0.15, "field-rotation": 0.02, "kind-tri": 0.02, "kind-tet": 0.01,
             "kind-poly": 0.02, "kind-polyx": 0.01, "perturbed": 0.05,
+            "scaled-small": 0.03, "scaled-large": 0.02, "stiff": 0.04, "soft": 0.02, "graded": 0.01, "data-scaled": 0.08,
+            "alpha-scaled": 0.08, "pressure-scaled": 0.08,
             "reuse-none": 0.1, "reuse-bc-edited": 0.15, "reuse-geometry-edited": 0.05, "reuse-stiffness-edited": 0.05,
             "reuse-back": 0.08, "reuse-forward": 0.08, "reuse-same-discr": 0.08, "reuse-new-discr": 0.08,
             "reuse-same-data": 0.08, "reuse-new-data": 0.08}
@@ -65,7 +71,10 @@ def _alpha(draw):
     form = draw(st.sampled_from(["float", "float", "tensor", "tensor", "int"]))
     if form == "int":
         return {"form": form, "value": 1}
-    return {"form": form, "value": draw(_f(0.2, 1.5))}
+    a = draw(_f(0.2, 1.5))
+    if draw(st.integers(0, 3)) == 0:  # coupling coefficients of other magnitudes (units of the scalar variable)
+        return {"form": form, "value": a * draw(st.sampled_from([1e-6, 1e-3, 1e3, 1e6, 1e12])), "scaled": True}
+    return {"form": form, "value": a}
 
 
 @st.composite
@@ -76,8 +85,17 @@ def _spec(draw, tier):
     if "merge" in g:
         g["merge"] = [False] * len(g["merge"])  # no hanging nodes (singular local systems), see C13
     alphas = draw(st.lists(_alpha(), min_size=1, max_size=2))
-    return {"grid": g, "lame": draw(fm.lame_spec()), "alphas": alphas, "field": draw(fm.displacement_spec(kinds=_FIELD_KINDS)),
-            "p0": draw(st.sampled_from([1.0, -1.0]) | _f(-3, 3)),
+    # data in the units of the grid: u = d (L c + G x); pressure p0 times a magnitude (Pa-scale 1e6..1e9 included)
+    fs = draw(fm.displacement_spec(kinds=_FIELD_KINDS))
+    d = fm.data_scale(draw)
+    L = float(g.get("scale", 1.0))
+    fs["c"] = [v * L * d for v in fs["c"]]
+    fs["G"] = [[v * d for v in row] for row in fs["G"]]
+    fs["dscale"] = d
+    p0 = draw(st.sampled_from([1.0, -1.0]) | fm._d(-3, 3))
+    if draw(st.integers(0, 2)) == 0:
+        p0 = p0 * draw(st.sampled_from([1e-6, 1e-3, 1e3, 1e6, 1e9]))
+    return {"grid": g, "lame": draw(fm.lame_spec()), "alphas": alphas, "field": fs, "p0": p0,
             "reuse": draw(fm.reuse_spec(("mix", "mix", "all_dir", "one_dir")))}
 
 
@@ -136,15 +154,20 @@ def check(spec):
         a = values[key]
         got = dd @ u + bdd @ bv
         sc = float((fm.abs_apply(dd, u) + fm.abs_apply(bdd, bv)).max())
-        require_close(got, a * trG * g.cell_volumes, "displacement-divergence", rtol=1e-9, atol=1e-13, scale=sc,
+        require_close(got, a * trG * g.cell_volumes, "displacement-divergence", rtol=1e-9, atol=0.0, scale=sc,
                       what=f"[{key}] div_u u + bound_div_u bc vs alpha tr(G) |cell|")
         gp = sg @ p
         scp = float(fm.abs_apply(sg, p).max())
-        require_close(gp, -a * spec["p0"] * normals, "scalar-gradient", rtol=1e-9, atol=1e-13, scale=scp,
+        require_close(gp, -a * spec["p0"] * normals, "scalar-gradient", rtol=1e-9, atol=0.0, scale=scp,
                       what=f"[{key}] scalar_gradient p0 vs -alpha p0 n_f")
 
     meta = grid_meta(spec["grid"])
     labels = list(meta["labels"]) + ["field-" + fs["kind"]] + fm.reuse_labels(reuse)
+    labels += fm.scale_labels(spec["grid"], spec["lame"], fs.get("dscale", 1.0))
+    if any(a.get("scaled") for a in spec["alphas"]):
+        labels.append("alpha-scaled")
+    if not (1e-2 < abs(spec["p0"]) < 1e2) and spec["p0"] != 0.0:
+        labels.append("pressure-scaled")
     labels += sorted({"alpha-" + a["form"] for a in spec["alphas"]})
     if len(spec["alphas"]) == 2:
         labels.append("two-keys")
